@@ -46,8 +46,22 @@ def run_case(mod, case, ctx):
     """Run one case under the monitors; an exception escaping `check` itself is a harness
     defect (the property modules catch everything the code under test may raise)."""
     ctx.cases += 1
+    if isinstance(case, dict) and "passive_test" in case:
+        return replay_passive(mod, case)
     out = mod.check(case, ctx)
     return out or []
+
+
+def replay_passive(mod, case):
+    """A violation recorded while the repository's own suite ran: re-run the suite passively and
+    report the recordings of that test again."""
+    from . import passive
+    data = passive.run()
+    out = []
+    for rec in (data or {}).get("recorded", []):
+        if rec.get("test") == case["passive_test"] and passive.MONITORS.get(rec["monitor"]) == mod.ID:
+            out.append(Violation("passive-" + rec["monitor"], f"{mod.ID}:passive:{rec['monitor']}:{str(rec['why'])[:60]}", rec))
+    return out
 
 
 def worker(args):
@@ -183,6 +197,23 @@ def parent(args):
         inconclusive.append("harness error inside a worker: " + e)
     import shutil
     shutil.rmtree(tmp, ignore_errors=True)
+
+    # 2b. thorough tier: passive monitors on the repository's own test suite (DESIGN 3.5)
+    from . import passive
+    mine = [m for m, pr in passive.MONITORS.items() if pr == pid]
+    if args.tier == "thorough" and mine:
+        data = passive.run()
+        if data is None:
+            inconclusive.append("passive run of the repository's test suite could not be executed")
+        else:
+            for m in mine:
+                n = sum(v for k, v in data["counts"].items() if k == m or (m == "no_mutation_post" and k.startswith("transform_copy:")))
+                total.mon("passive_suite:" + m, n)
+            total.note("passive_suite_tests", data.get("tests", 0))
+            for rec in data["recorded"]:
+                if rec["monitor"] in mine:
+                    total.violations.append(dict(case={"passive_test": rec.get("test"), "witness": rec["witness"]}, kind="passive-" + rec["monitor"],
+                                                 sig=f"{pid}:passive:{rec['monitor']}:{str(rec['why'])[:60]}", detail=rec))
 
     # 3. classify violations
     known_sigs = {k["sig"]: k for k in known}
